@@ -1,4 +1,21 @@
 import SaramaVerif.Model.Lifecycle
+/-
+  C12 for the consumer-side components (partition consumer, broker worker, consumer, consumer group + session,
+  offset manager + POM, client, broker): theorems about EVERY event sequence accepted by the acceptors of
+  Model/Lifecycle.lean - Close / AsyncClose may be interleaved anywhere, the schedule of the goroutines is arbitrary.
+
+    never_double_close_X                 no channel is closed twice
+    no_send_after_close_X                nothing is sent on a channel after its close
+    outputs_closed_after_last_event_X    the public channels are closed after the last event that feeds them
+    close_order_X                        the order of the hand-shake (`Precedes a reset b`: every b is preceded by an a
+                                         with no reset in between)
+    no_deadlock_after_close_X            every reachable non-terminal state after the close event has an enabled
+                                         internal step;  close_terminates_X: a measure that every such step decreases
+    holder_finds_channels_open (PC)      the ownership discipline alone keeps the holder of a child off closed channels
+
+  The acceptors are tied to /repo by trace validation (Driver/LifecycleTrace.lean): the hook events of the real
+  goroutines, in their real order, are replayed on every run of the check.
+-/
 namespace Props.C12life
 open Model.Lifecycle
 
@@ -351,4 +368,912 @@ example : accepts step {} [.open_, .respClose, .respClose] = false := by decide 
 example : accepts step {} [.open_, .respClose, .send] = false := by decide              -- send on closed channel
 
 end Br
+
+
+namespace POM
+open Model.Lifecycle.POM
+
+local macro "acc" h:ident : tactic =>
+  `(tactic| (simp only [step] at $h:ident <;> (repeat' split at $h:ident) <;>
+      first | (cases $h:ident; done) | (injection $h:ident with $h:ident; subst $h:ident; simp_all)))
+
+theorem closed_set (s : St) (e : Ev) (s' : St) (h : step s e = .ok s') : (s'.closed = true ↔ s.closed = true ∨ e = .errClose) := by
+  cases e <;> acc h
+
+/-- the errors channel of a partition offset manager is closed at most once (releaseOnce) -/
+theorem never_double_close_pom {evs : List Ev} {s : St} (h : run {} evs = .ok s) : evs.count .errClose ≤ 1 := by
+  have := count_le_one (p := fun e => e = Ev.errClose) (fun s : St => s.closed) closed_set
+    (by intro s e s' he h; subst he; acc h) h
+  rw [count_eq_countP]; simpa using this
+
+/-- the errors channel is closed after the last handleError: no send is accepted after the close -/
+theorem outputs_closed_after_last_event_pom {pre post : List Ev} {s : St} (h : run {} (pre ++ .errClose :: post) = .ok s) :
+    ∀ e ∈ post, e ≠ .errSend := by
+  exact none_after (fun s : St => s.closed) (· = .errClose) (· = .errSend)
+    (by intro s e s' h hf; exact (closed_set s e s' h).mpr (Or.inl hf))
+    (by intro s e s' he h; exact (closed_set s e s' h).mpr (Or.inr he))
+    (by intro s e s' he h; subst he; acc h) h rfl
+
+/-- a POM is released only after it was closed by its owner (AsyncClose / asyncClosePOMs) -/
+theorem close_order_pom {evs : List Ev} {s : St} (h : run {} evs = .ok s) :
+    Precedes (· = .done) (fun _ => False) (· = .errClose) evs := by
+  exact needs (fun s : St => s.done) _ _ _ {} rfl
+    (by intro s e s' h hf; cases e <;> acc h)
+    (by intro s e s' he h; subst he; acc h) h
+
+example : accepts step {} [.new, .errSend, .done, .errSend, .done, .errClose] = true := by decide
+example : accepts step {} [.new, .done, .errClose, .errSend] = false := by decide
+example : accepts step {} [.new, .done, .errClose, .errClose] = false := by decide
+end POM
+
+namespace BC
+open Model.Lifecycle.BC
+
+local macro "acc" h:ident : tactic =>
+  `(tactic| (simp only [step] at $h:ident <;> (repeat' split at $h:ident) <;>
+      first | (cases $h:ident; done) | (injection $h:ident with $h:ident; subst $h:ident; simp_all)))
+
+theorem input_set (s : St) (e : Ev) (s' : St) (h : step s e = .ok s') : (s'.inputClosed = true ↔ s.inputClosed = true ∨ e = .inputClose) := by
+  cases e <;> acc h
+theorem wait_set (s : St) (e : Ev) (s' : St) (h : step s e = .ok s') : (s'.waitClosed = true ↔ s.waitClosed = true ∨ e = .waitClose) := by
+  cases e <;> acc h
+theorem newsubs_set (s : St) (e : Ev) (s' : St) (h : step s e = .ok s') : (s'.newsubsClosed = true ↔ s.newsubsClosed = true ∨ e = .newsubsClose) := by
+  cases e <;> acc h
+
+/-- `input`, `wait` and `newSubscriptions` of a broker worker are closed at most once -/
+theorem never_double_close_bc {evs : List Ev} {s : St} (h : run {} evs = .ok s) :
+    evs.count .inputClose ≤ 1 ∧ evs.count .waitClose ≤ 1 ∧ evs.count .newsubsClose ≤ 1 := by
+  refine ⟨?_, ?_, ?_⟩
+  · have := count_le_one (p := fun e => e = Ev.inputClose) (fun s : St => s.inputClosed) input_set
+      (by intro s e s' he h; subst he; acc h) h
+    rw [count_eq_countP]; simpa using this
+  · have := count_le_one (p := fun e => e = Ev.waitClose) (fun s : St => s.waitClosed) wait_set
+      (by intro s e s' he h; subst he; acc h) h
+    rw [count_eq_countP]; simpa using this
+  · have := count_le_one (p := fun e => e = Ev.newsubsClose) (fun s : St => s.newsubsClosed) newsubs_set
+      (by intro s e s' he h; subst he; acc h) h
+    rw [count_eq_countP]; simpa using this
+
+/-- no partition consumer sends itself on `input` after it was closed; no new reference is handed out either;
+    nothing is sent on `newSubscriptions` after it was closed -/
+theorem no_send_after_close_bc {pre post : List Ev} {s : St} :
+    (run {} (pre ++ .inputClose :: post) = .ok s → ∀ e ∈ post, e ≠ .inputSend ∧ ∀ n, e ≠ .ref n) ∧
+    (run {} (pre ++ .newsubsClose :: post) = .ok s → ∀ e ∈ post, ∀ n, e ≠ .flush n) := by
+  constructor
+  · intro h e he
+    have := none_after (fun s : St => s.inputClosed) (· = .inputClose) (fun e => e = .inputSend ∨ ∃ n, e = .ref n)
+      (by intro s e s' h hf; exact (input_set s e s' h).mpr (Or.inl hf))
+      (by intro s e s' he h; exact (input_set s e s' h).mpr (Or.inr he))
+      (by intro s e s' he h; rcases he with rfl | ⟨n, rfl⟩ <;> acc h) h rfl e he
+    constructor
+    · intro hc; exact this (Or.inl hc)
+    · intro n hc; exact this (Or.inr ⟨n, hc⟩)
+  · intro h e he n hc
+    exact none_after (fun s : St => s.newsubsClosed) (· = .newsubsClose) (fun e => ∃ n, e = .flush n)
+      (by intro s e s' h hf; exact (newsubs_set s e s' h).mpr (Or.inl hf))
+      (by intro s e s' he h; exact (newsubs_set s e s' h).mpr (Or.inr he))
+      (by intro s e s' he h; rcases he with ⟨n, rfl⟩; acc h) h rfl e he ⟨n, hc⟩
+
+def isRef : Ev → Bool | .ref _ => true | _ => false
+def isUnref : Ev → Bool | .unref _ => true | _ => false
+
+/-- `input` is closed exactly when every reference that was handed out has been returned -/
+theorem input_closed_when_unreferenced {pre : List Ev} {s : St} (h : run {} (pre ++ [.inputClose]) = .ok s) :
+    pre.countP isUnref = pre.countP isRef := by
+  obtain ⟨s1, h1, h2⟩ := run_append.mp h
+  obtain ⟨s2, h3, _⟩ := run_cons.mp h2
+  have hp : s1.refs = 0 := by acc h3
+  have key := run_hist (step := step)
+    (fun hst (s : St) => s.refs + hst.countP isUnref = hst.countP isRef)
+    (by intro hst s e s' ih hs
+        cases e <;> acc hs <;> simp_all [isRef, isUnref] <;> omega)
+    (h0 := []) h1 (by simp)
+  simp at key; omega
+
+/-- the wind-down of a broker worker: input closed (last reference returned), then the subscription manager closes
+    `wait`, then `newSubscriptions`; the worker goroutine returns only after that -/
+theorem close_order_bc {evs : List Ev} {s : St} (h : run {} evs = .ok s) :
+    Precedes (· = .inputClose) (fun _ => False) (· = .waitClose) evs ∧
+    Precedes (· = .waitClose) (fun _ => False) (· = .newsubsClose) evs ∧
+    Precedes (· = .newsubsClose) (fun _ => False) (fun e => ∃ a, e = .exit a) evs := by
+  refine ⟨?_, ?_, ?_⟩
+  · exact needs (fun s : St => s.inputClosed) _ _ _ {} rfl
+      (by intro s e s' h hf; have := (input_set s e s' h).mp hf; simpa using this)
+      (by intro s e s' he h; subst he; acc h) h
+  · exact needs (fun s : St => s.waitClosed) _ _ _ {} rfl
+      (by intro s e s' h hf; have := (wait_set s e s' h).mp hf; simpa using this)
+      (by intro s e s' he h; subst he; acc h) h
+  · exact needs (fun s : St => s.newsubsClosed) _ _ _ {} rfl
+      (by intro s e s' h hf; have := (newsubs_set s e s' h).mp hf; simpa using this)
+      (by intro s e s' he h; rcases he with ⟨a, rfl⟩; acc h) h
+
+/-- once `input` is closed the worker's goroutines can always move until the worker has returned -/
+theorem no_deadlock_after_close_bc (s : St) (hc : s.inputClosed = true) (hx : s.exited = false) :
+    ∃ e s', internal e = true ∧ step s e = .ok s' := by
+  by_cases h1 : s.waitClosed = true
+  · by_cases h2 : s.newsubsClosed = true
+    · exact ⟨.exit s.aborted, _, rfl, by simp [step, hx, h2]; rfl⟩
+    · exact ⟨.newsubsClose, _, rfl, by simp [step, h1, h2]; rfl⟩
+  · exact ⟨.waitClose, _, rfl, by simp [step, hc, h1]; rfl⟩
+
+/-- ... and each of their moves decreases the rank -/
+theorem close_terminates_bc (s : St) (e : Ev) (s' : St) (h : step s e = .ok s') (hi : internal e = true) : rank s' < rank s := by
+  cases e <;> simp [internal] at hi <;> acc h <;> simp_all [rank] <;> omega
+
+example : accepts step {} [.new, .ref 0, .inputSend, .subAdd, .ref 1, .inputSend, .unref 2, .subAdd, .unref 1, .inputClose,
+    .waitClose, .newsubsClose, .exit false] = true := by decide
+example : accepts step {} [.new, .ref 0, .inputSend, .subAdd, .abort, .unref 1, .inputClose, .waitClose, .flush 1, .newsubsClose, .exit true] = true := by decide
+example : accepts step {} [.new, .ref 0, .unref 1, .inputClose, .inputSend] = false := by decide   -- send on closed input
+example : accepts step {} [.new, .ref 0, .ref 1, .unref 2, .inputClose] = false := by decide        -- closed while referenced
+end BC
+
+namespace Cons
+open Model.Lifecycle.Cons
+
+local macro "acc" h:ident : tactic =>
+  `(tactic| (simp only [step] at $h:ident <;> (repeat' split at $h:ident) <;>
+      first | (cases $h:ident; done) | (injection $h:ident with $h:ident; subst $h:ident; simp_all)))
+
+/-- the documented order: when Consumer.Close is accepted every partition consumer that was registered has been
+    removed again (its dispatcher has finished) -/
+theorem close_order_consumer {pre : List Ev} {s : St} (h : run {} (pre ++ [.close]) = .ok s) :
+    ∀ c, pre.count (.childAdd c) = pre.count (.childRemove c) := by
+  obtain ⟨s1, h1, h2⟩ := run_append.mp h
+  obtain ⟨s2, h3, _⟩ := run_cons.mp h2
+  have hp : s1.live = [] := by acc h3
+  have key := run_hist (step := step)
+    (fun hst (s : St) => s.live.Nodup ∧ ∀ c, hst.count (.childAdd c) = hst.count (.childRemove c) + (if c ∈ s.live then 1 else 0))
+    (by intro hst s e s' ⟨hnd, ih⟩ hs
+        cases e with
+        | childAdd c0 =>
+          simp only [step] at hs
+          split at hs; · cases hs
+          split at hs; · cases hs
+          rename_i _ hnotin
+          injection hs with hs; subst hs
+          refine ⟨List.nodup_cons.mpr ⟨hnotin, hnd⟩, ?_⟩
+          intro c
+          have := ih c
+          simp only [List.count_append, List.count_cons, List.count_nil, List.mem_cons]
+          by_cases hc : c = c0
+          · subst hc; simp [hnotin] at this ⊢; omega
+          · have hc' : ¬ c0 = c := fun h => hc h.symm
+            simp [hc, hc'] at this ⊢; omega
+        | childRemove c0 =>
+          simp only [step] at hs
+          split at hs; · cases hs
+          rename_i hin
+          have hin : c0 ∈ s.live := by simpa using hin
+          injection hs with hs; subst hs
+          refine ⟨hnd.erase _, ?_⟩
+          intro c
+          have := ih c
+          simp only [List.count_append, List.count_cons, List.count_nil]
+          by_cases hc : c = c0
+          · subst hc
+            have hne : c ∉ s.live.erase c := fun hm => ((List.Nodup.mem_erase_iff hnd).mp hm).1 rfl
+            simp [hin, hne] at this ⊢; omega
+          · have hc' : ¬ c0 = c := fun h => hc h.symm
+            have hiff : c ∈ s.live.erase c0 ↔ c ∈ s.live := List.mem_erase_of_ne hc
+            simp [hc', hiff] at this ⊢; omega
+        | close =>
+          simp only [step] at hs
+          split at hs; · cases hs
+          injection hs with hs; subst hs
+          refine ⟨hnd, ?_⟩
+          intro c; have := ih c
+          simp only [List.count_append, List.count_cons, List.count_nil]
+          simp at this ⊢; omega)
+    (h0 := []) h1 (by simp)
+  intro c
+  have := key.2 c
+  simp [hp] at this
+  exact this
+
+example : accepts step {} [.childAdd 1, .childAdd 2, .childRemove 1, .childRemove 2, .close, .close] = true := by decide
+example : accepts step {} [.childAdd 1, .close] = false := by decide
+end Cons
+
+
+namespace OM
+open Model.Lifecycle.OM
+
+local macro "acc" h:ident : tactic =>
+  `(tactic| (simp only [step] at $h:ident <;> (repeat' split at $h:ident) <;>
+      first | (cases $h:ident; done) | (injection $h:ident with $h:ident; subst $h:ident; simp_all)))
+
+theorem closing_set (s : St) (e : Ev) (s' : St) (h : step s e = .ok s') : (s'.closing = true ↔ s.closing = true ∨ e = .closingClose) := by
+  cases e <;> acc h
+theorem loop_set (s : St) (e : Ev) (s' : St) (h : step s e = .ok s') : (s'.loopExited = true ↔ s.loopExited = true ∨ e = .closedClose) := by
+  cases e <;> acc h
+theorem recv_set (s : St) (e : Ev) (s' : St) (h : step s e = .ok s') : (s'.recv = true ↔ s.recv = true ∨ e = .closedRecv) := by
+  cases e <;> acc h
+theorem async_set (s : St) (e : Ev) (s' : St) (h : step s e = .ok s') : (s'.asyncClosed = true ↔ s.asyncClosed = true ∨ e = .asyncClose) := by
+  cases e <;> acc h
+theorem final_set (s : St) (e : Ev) (s' : St) (h : step s e = .ok s') : (s'.inFinal = true ↔ s.inFinal = true ∨ ∃ m, e = .finalBegin m) := by
+  cases e <;> acc h
+theorem forced_set (s : St) (e : Ev) (s' : St) (h : step s e = .ok s') : (s'.forced = true ↔ s.forced = true ∨ e = .releaseForce) := by
+  cases e <;> acc h
+
+/-- `closing` is closed at most once (closeOnce), `closed` at most once (mainLoop returns once) -/
+theorem never_double_close_om {evs : List Ev} {s : St} (h : run {} evs = .ok s) :
+    evs.count .closingClose ≤ 1 ∧ evs.count .closedClose ≤ 1 := by
+  constructor
+  · have := count_le_one (p := fun e => e = Ev.closingClose) (fun s : St => s.closing) closing_set
+      (by intro s e s' he h; subst he; acc h) h
+    rw [count_eq_countP]; simpa using this
+  · have := count_le_one (p := fun e => e = Ev.closedClose) (fun s : St => s.loopExited) loop_set
+      (by intro s e s' he h; subst he; acc h) h
+    rw [count_eq_countP]; simpa using this
+
+/-- OffsetManager.Close: closing closed → mainLoop returns and is awaited → POMs marked closed → final flush loop
+    (only after both) → forced release → done -/
+theorem close_order_om {evs : List Ev} {s : St} (h : run {} evs = .ok s) :
+    Precedes (· = .closingClose) (fun _ => False) (· = .closedClose) evs ∧
+    Precedes (· = .closedClose) (fun _ => False) (· = .closedRecv) evs ∧
+    Precedes (· = .closingClose) (fun _ => False) (· = .asyncClose) evs ∧
+    Precedes (· = .asyncClose) (fun _ => False) (fun e => ∃ m, e = .finalBegin m) evs ∧
+    Precedes (· = .closedRecv) (fun _ => False) (fun e => ∃ m, e = .finalBegin m) evs ∧
+    Precedes (fun e => ∃ m, e = .finalBegin m) (fun _ => False) (fun e => ∃ k, e = .finalFlush k) evs ∧
+    Precedes (· = .asyncClose) (fun _ => False) (· = .releaseForce) evs ∧
+    Precedes (· = .releaseForce) (fun _ => False) (· = .closeDone) evs := by
+  refine ⟨?_, ?_, ?_, ?_, ?_, ?_, ?_, ?_⟩
+  · exact needs (fun s : St => s.closing) _ _ _ {} rfl
+      (by intro s e s' h hf; have := (closing_set s e s' h).mp hf; simpa using this)
+      (by intro s e s' he h; subst he; acc h) h
+  · exact needs (fun s : St => s.loopExited) _ _ _ {} rfl
+      (by intro s e s' h hf; have := (loop_set s e s' h).mp hf; simpa using this)
+      (by intro s e s' he h; subst he; acc h) h
+  · exact needs (fun s : St => s.closing) _ _ _ {} rfl
+      (by intro s e s' h hf; have := (closing_set s e s' h).mp hf; simpa using this)
+      (by intro s e s' he h; subst he; acc h) h
+  · exact needs (fun s : St => s.asyncClosed) _ _ _ {} rfl
+      (by intro s e s' h hf; have := (async_set s e s' h).mp hf; simpa using this)
+      (by intro s e s' he h; rcases he with ⟨m, rfl⟩; acc h) h
+  · exact needs (fun s : St => s.recv) _ _ _ {} rfl
+      (by intro s e s' h hf; have := (recv_set s e s' h).mp hf; simpa using this)
+      (by intro s e s' he h; rcases he with ⟨m, rfl⟩; acc h) h
+  · exact needs (fun s : St => s.inFinal) _ _ _ {} rfl
+      (by intro s e s' h hf; have := (final_set s e s' h).mp hf; simpa using this)
+      (by intro s e s' he h; rcases he with ⟨m, rfl⟩; acc h) h
+  · exact needs (fun s : St => s.asyncClosed) _ _ _ {} rfl
+      (by intro s e s' h hf; have := (async_set s e s' h).mp hf; simpa using this)
+      (by intro s e s' he h; subst he; acc h) h
+  · exact needs (fun s : St => s.forced) _ _ _ {} rfl
+      (by intro s e s' h hf; have := (forced_set s e s' h).mp hf; simpa using this)
+      (by intro s e s' he h; subst he; acc h) h
+
+def isFlush : Ev → Bool | .finalFlush _ => true | _ => false
+
+/-- the final flush loop is bounded: at most Retry.Max + 1 flushes, whatever the coordinator answers -/
+theorem final_loop_bounded {evs : List Ev} {s : St} (h : run {} evs = .ok s) :
+    evs.countP isFlush = s.attempts ∧ s.attempts ≤ s.max + 1 := by
+  have key := run_hist (step := step)
+    (fun hst (s : St) => hst.countP isFlush = s.attempts ∧ s.attempts ≤ s.max + 1 ∧ (s.inFinal = false → s.attempts = 0))
+    (by intro hst s e s' ⟨h1, h2, h3⟩ hs
+        cases e <;> acc hs <;> simp_all [isFlush] <;> omega)
+    (h0 := []) h (by simp)
+  simp at key; exact ⟨key.1, key.2.1⟩
+
+def isNew : Ev → Bool | .pomNew => true | _ => false
+def isRelease : Ev → Bool | .pomRelease => true | _ => false
+
+/-- Close is done only when every registered POM has been released (its errors channel closed) -/
+theorem outputs_closed_after_last_event_om {pre : List Ev} {s : St} (h : run {} (pre ++ [.closeDone]) = .ok s) :
+    pre.countP isRelease = pre.countP isNew := by
+  obtain ⟨s1, h1, h2⟩ := run_append.mp h
+  obtain ⟨s2, h3, _⟩ := run_cons.mp h2
+  have hp : s1.live = 0 := by acc h3
+  have key := run_hist (step := step)
+    (fun hst (s : St) => s.live + hst.countP isRelease = hst.countP isNew)
+    (by intro hst s e s' ih hs
+        cases e <;> acc hs <;> simp_all [isNew, isRelease] <;> omega)
+    (h0 := []) h1 (by simp)
+  simp at key; omega
+
+/-- after `closing` was closed, Close (or a POM release inside it) can always move until it is done -/
+theorem no_deadlock_after_close_om {evs : List Ev} {s : St} (h : run {} evs = .ok s) (hc : s.closing = true) (hd : s.done = false) :
+    ∃ e s', internal e = true ∧ step s e = .ok s' := by
+  have hb := (final_loop_bounded h).2
+  by_cases h1 : s.asyncClosed = true
+  · by_cases h2 : s.forced = true
+    · by_cases h3 : s.live = 0
+      · exact ⟨.closeDone, _, rfl, by simp [step, h2, h3, hd]; rfl⟩
+      · exact ⟨.pomRelease, _, rfl, by simp [step, h3]; rfl⟩
+    · by_cases h3 : s.inFinal = true ∧ s.clean = false ∧ s.attempts ≠ s.max + 1
+      · obtain ⟨h4, h5, h6⟩ := h3
+        have h2' : s.forced = false := by simpa using h2
+        have : ¬ s.max < s.attempts := by omega
+        exact ⟨.finalFlush s.attempts, _, rfl, by simp [step, h4, h5, h2', this]; rfl⟩
+      · have h2' : s.forced = false := by simpa using h2
+        refine ⟨.releaseForce, { s with forced := true }, rfl, ?_⟩
+        simp only [step, h1, h2']
+        simp only [not_true_eq_false, ↓reduceIte, Bool.false_eq_true]
+        split
+        · rename_i hx; exfalso; apply h3; simpa using hx
+        · rfl
+  · exact ⟨.asyncClose, _, rfl, by simp [step, hc, h1]; rfl⟩
+
+/-- termination measure of Close: every internal move decreases (phase, Retry.Max + 1 - attempts + live POMs)
+    lexicographically -/
+theorem close_terminates_om (s : St) (e : Ev) (s' : St) (h : step s e = .ok s') (hi : internal e = true) :
+    Prod.Lex (· < ·) (· < ·) (phase s', inner s') (phase s, inner s) := by
+  have key : phase s' < phase s ∨ (phase s' = phase s ∧ inner s' < inner s) := by
+    cases e <;> simp [internal] at hi <;> acc h <;> simp_all [phase, inner] <;> omega
+  rcases key with h1 | ⟨h1, h2⟩
+  · exact Prod.Lex.left _ _ h1
+  · rw [h1]; exact Prod.Lex.right _ h2
+
+theorem close_order_wf : WellFounded (Prod.Lex (· < ·) (· < ·) : Nat × Nat → Nat × Nat → Prop) :=
+  (Prod.lex Nat.lt_wfRel Nat.lt_wfRel).wf
+
+example : accepts step {} [.pomNew, .pomNew, .closingClose, .closedClose, .closedRecv, .asyncClose, .finalBegin 2, .finalFlush 0,
+    .pomRelease, .finalFlush 1, .finalFlush 2, .releaseForce, .pomRelease, .closeDone] = true := by decide
+example : accepts step {} [.pomNew, .closingClose, .asyncClose, .releaseForce, .pomRelease, .closeDone] = true := by decide  -- auto-commit off
+example : accepts step {} [.closingClose, .closedClose, .closedRecv, .asyncClose, .finalBegin 1, .finalFlush 0, .finalFlush 1, .finalFlush 2] = false := by decide
+example : accepts step {} [.closingClose, .asyncClose, .finalBegin 1] = false := by decide  -- mainLoop not awaited
+end OM
+
+
+
+namespace Grp
+open Model.Lifecycle.Grp
+
+local macro "acc" h:ident : tactic =>
+  `(tactic| (simp only [step] at $h:ident <;> (repeat' split at $h:ident) <;>
+      first | (cases $h:ident; done) | (injection $h:ident with $h:ident; subst $h:ident; simp_all)))
+
+theorem closed_set (s : St) (e : Ev) (s' : St) (h : step s e = .ok s') : (s'.closed = true ↔ s.closed = true ∨ e = .closedClose) := by
+  cases e <;> acc h
+theorem left_set (s : St) (e : Ev) (s' : St) (h : step s e = .ok s') : (s'.left = true ↔ s.left = true ∨ e = .leaveUnlock) := by
+  cases e <;> acc h
+theorem errs_set (s : St) (e : Ev) (s' : St) (h : step s e = .ok s') : (s'.errsClosed = true ↔ s.errsClosed = true ∨ e = .errorsClose) := by
+  cases e <;> acc h
+theorem client_set (s : St) (e : Ev) (s' : St) (h : step s e = .ok s') : (s'.clientClosed = true ↔ s.clientClosed = true ∨ e = .clientClose) := by
+  cases e <;> acc h
+
+def isSessStart : Ev → Prop | .sessStart _ => True | _ => False
+
+/-- the group's `closed` and `errors` channels are closed at most once (closeOnce); per session `hbDying` and
+    `hbDead` are closed at most once: each close is preceded by the start of its session with no other close of
+    the same channel in between -/
+theorem never_double_close_group {evs : List Ev} {s : St} (h : run {} evs = .ok s) :
+    evs.count .closedClose ≤ 1 ∧ evs.count .errorsClose ≤ 1 ∧
+    Precedes isSessStart (fun e => (∃ n, e = .hbDyingClose n) ∨ e = .consumeLock ∨ e = .consumeUnlock) (fun e => ∃ n, e = .hbDyingClose n) evs ∧
+    Precedes isSessStart (fun e => (∃ n, e = .hbDeadClose n) ∨ e = .consumeLock ∨ e = .consumeUnlock) (fun e => ∃ n, e = .hbDeadClose n) evs := by
+  refine ⟨?_, ?_, ?_, ?_⟩
+  · have := count_le_one (p := fun e => e = Ev.closedClose) (fun s : St => s.closed) closed_set
+      (by intro s e s' he h; subst he; acc h) h
+    rw [count_eq_countP]; simpa using this
+  · have := count_le_one (p := fun e => e = Ev.errorsClose) (fun s : St => s.errsClosed) errs_set
+      (by intro s e s' he h; subst he; acc h) h
+    rw [count_eq_countP]; simpa using this
+  · exact needs (fun s : St => s.sess.isSome && !s.hbDying) _ _ _ {} rfl
+      (by intro s e s' h hf; cases e <;> acc h <;> simp_all [isSessStart])
+      (by intro s e s' he h; rcases he with ⟨n, rfl⟩; acc h) h
+  · exact needs (fun s : St => s.sess.isSome && !s.hbDead) _ _ _ {} rfl
+      (by intro s e s' h hf; cases e <;> acc h <;> simp_all [isSessStart])
+      (by intro s e s' he h; rcases he with ⟨n, rfl⟩; acc h) h
+
+/-- nothing is sent on the group's errors channel after it was closed -/
+theorem no_send_after_close_group {pre post : List Ev} {s : St} (h : run {} (pre ++ .errorsClose :: post) = .ok s) :
+    ∀ e ∈ post, e ≠ .errorsSend := by
+  exact none_after (fun s : St => s.errsClosed) (· = .errorsClose) (· = .errorsSend)
+    (by intro s e s' h hf; exact (errs_set s e s' h).mpr (Or.inl hf))
+    (by intro s e s' he h; exact (errs_set s e s' h).mpr (Or.inr he))
+    (by intro s e s' he h; subst he; acc h) h rfl
+
+structure GInv (s : St) : Prop where
+  lock_sess : s.lock ≠ .consume → s.sess = none
+  claims_le : s.claimsDone ≤ s.claims
+
+theorem init_inv : GInv {} := ⟨by simp, by simp⟩
+theorem step_inv (s : St) (e : Ev) (s' : St) (hi : GInv s) (h : step s e = .ok s') : GInv s' := by
+  obtain ⟨h1, h2⟩ := hi
+  cases e <;> acc h <;> constructor <;> simp_all <;> omega
+theorem reach_inv {evs : List Ev} {s : St} (h : run {} evs = .ok s) : GInv s :=
+  run_inv GInv step_inv h init_inv
+
+/-- the group's Errors channel is closed only after leave(), leave() takes the lock only when no session is running:
+    every session that was started before has been released completely (release returned); and no session is
+    started after leave() -/
+theorem outputs_closed_after_last_event_group {evs : List Ev} {s : St} (h : run {} evs = .ok s) :
+    Precedes (· = .leaveUnlock) (fun _ => False) (· = .errorsClose) evs ∧
+    (∀ pre post, evs = pre ++ .leaveLock :: post → ∀ l n r, pre = l ++ .sessStart n :: r → .releaseDone n ∈ r) ∧
+    (∀ pre post, evs = pre ++ .leaveUnlock :: post → ∀ e ∈ post, ∀ n, e ≠ .sessStart n) := by
+  refine ⟨?_, ?_, ?_⟩
+  · exact needs (fun s : St => s.left) _ _ _ {} rfl
+      (by intro s e s' h hf; have := (left_set s e s' h).mp hf; simpa using this)
+      (by intro s e s' he h; subst he; acc h) h
+  · intro pre post he l n r hp
+    subst he
+    obtain ⟨s1, h1, h2⟩ := run_append.mp h
+    obtain ⟨s2, h3, _⟩ := run_cons.mp h2
+    have hfree : s1.lock = .free := by acc h3
+    have hinv := reach_inv h1
+    have hnone : s1.sess = none := hinv.lock_sess (by simp [hfree])
+    have key := run_hist (step := step)
+      (fun hst (s : St) => GInv s ∧ ∀ l n r, hst = l ++ .sessStart n :: r → .releaseDone n ∈ r ∨ (s.sess = some n ∧ s.released = false))
+      (by
+        intro hst s e s' ⟨hi, ih⟩ hs
+        refine ⟨step_inv s e s' hi hs, ?_⟩
+        intro l n r he
+        rcases snoc_eq_append_cons he with ⟨rfl, rfl, rfl⟩ | ⟨r0, rfl, rfl⟩
+        · right; acc hs
+        · rcases ih l n r0 rfl with hm | ⟨hs1, hs2⟩
+          · left; simp [hm]
+          · have hl := hi.lock_sess
+            cases e <;> acc hs <;> simp_all)
+      (h0 := []) h1 ⟨init_inv, by intro l n r he; simp at he⟩
+    rcases key.2 l n r (by simpa using hp) with hm | ⟨hs1, _⟩
+    · exact hm
+    · simp [hnone] at hs1
+  · intro pre post he e hmem n hc
+    subst he
+    exact none_after (fun s : St => s.left) (· = .leaveUnlock) (fun e => ∃ n, e = .sessStart n)
+      (by intro s e s' h hf; exact (left_set s e s' h).mpr (Or.inl hf))
+      (by intro s e s' he h; exact (left_set s e s' h).mpr (Or.inr he))
+      (by intro s e s' he h; rcases he with ⟨n, rfl⟩; acc h) h rfl e hmem ⟨n, hc⟩
+
+/-- ConsumerGroup.Close: closed closed → leave under the lock → errors closed → client closed → done -/
+theorem close_order_group {evs : List Ev} {s : St} (h : run {} evs = .ok s) :
+    Precedes (· = .closedClose) (fun _ => False) (· = .leaveLock) evs ∧
+    Precedes (· = .leaveLock) (fun e => e = .leaveUnlock) (· = .leaveUnlock) evs ∧
+    Precedes (· = .leaveUnlock) (fun _ => False) (· = .errorsClose) evs ∧
+    Precedes (· = .errorsClose) (fun _ => False) (· = .clientClose) evs ∧
+    Precedes (· = .clientClose) (fun _ => False) (· = .closeDone) evs := by
+  refine ⟨?_, ?_, ?_, ?_, ?_⟩
+  · exact needs (fun s : St => s.closed) _ _ _ {} rfl
+      (by intro s e s' h hf; have := (closed_set s e s' h).mp hf; simpa using this)
+      (by intro s e s' he h; subst he; acc h) h
+  · exact needs (fun s : St => decide (s.lock = .leave)) _ _ _ {} rfl
+      (by intro s e s' h hf; cases e <;> acc h)
+      (by intro s e s' he h; subst he; acc h) h
+  · exact (outputs_closed_after_last_event_group h).1
+  · exact needs (fun s : St => s.errsClosed) _ _ _ {} rfl
+      (by intro s e s' h hf; have := (errs_set s e s' h).mp hf; simpa using this)
+      (by intro s e s' he h; subst he; acc h) h
+  · exact needs (fun s : St => s.clientClosed) _ _ _ {} rfl
+      (by intro s e s' h hf; have := (client_set s e s' h).mp hf; simpa using this)
+      (by intro s e s' he h; subst he; acc h) h
+
+/-- release of a session: cancel → claim goroutines joined → Cleanup (before the offset manager is closed) →
+    offsets.Close → hbDying closed → hbDead awaited (the heartbeat loop has closed it) → release returns; all within
+    the same session -/
+theorem close_order_session {evs : List Ev} {s : St} (h : run {} evs = .ok s) :
+    Precedes (fun e => ∃ n, e = .release n) isSessStart (fun e => ∃ n, e = .claimsJoined n) evs ∧
+    Precedes (fun e => ∃ n, e = .claimsJoined n) (fun e => isSessStart e ∨ ∃ n, e = .offsetsClose n) (fun e => ∃ n, e = .cleanup n) evs ∧
+    Precedes (fun e => ∃ n, e = .claimsJoined n) isSessStart (fun e => ∃ n, e = .offsetsClose n) evs ∧
+    Precedes (fun e => ∃ n, e = .offsetsClose n) isSessStart (fun e => ∃ n, e = .hbDyingClose n) evs ∧
+    Precedes (fun e => ∃ n, e = .hbDyingClose n) isSessStart (fun e => ∃ n, e = .hbDeadRecv n) evs ∧
+    Precedes (fun e => ∃ n, e = .hbDeadClose n) isSessStart (fun e => ∃ n, e = .hbDeadRecv n) evs ∧
+    Precedes (fun e => ∃ n, e = .hbDeadRecv n) isSessStart (fun e => ∃ n, e = .releaseDone n) evs := by
+  refine ⟨?_, ?_, ?_, ?_, ?_, ?_, ?_⟩
+  · exact needs (fun s : St => s.releasing) _ _ _ {} rfl
+      (by intro s e s' h hf; cases e <;> acc h <;> simp_all [isSessStart])
+      (by intro s e s' he h; rcases he with ⟨n, rfl⟩; acc h) h
+  · exact needs (fun s : St => s.joined && !s.omClosed) _ _ _ {} rfl
+      (by intro s e s' h hf; cases e <;> acc h <;> simp_all [isSessStart])
+      (by intro s e s' he h; rcases he with ⟨n, rfl⟩; acc h) h
+  · exact needs (fun s : St => s.joined) _ _ _ {} rfl
+      (by intro s e s' h hf; cases e <;> acc h <;> simp_all [isSessStart])
+      (by intro s e s' he h; rcases he with ⟨n, rfl⟩; acc h) h
+  · exact needs (fun s : St => s.omClosed) _ _ _ {} rfl
+      (by intro s e s' h hf; cases e <;> acc h <;> simp_all [isSessStart])
+      (by intro s e s' he h; rcases he with ⟨n, rfl⟩; acc h) h
+  · exact needs (fun s : St => s.hbDying) _ _ _ {} rfl
+      (by intro s e s' h hf; cases e <;> acc h <;> simp_all [isSessStart])
+      (by intro s e s' he h; rcases he with ⟨n, rfl⟩; acc h) h
+  · exact needs (fun s : St => s.hbDead) _ _ _ {} rfl
+      (by intro s e s' h hf; cases e <;> acc h <;> simp_all [isSessStart])
+      (by intro s e s' he h; rcases he with ⟨n, rfl⟩; acc h) h
+  · exact needs (fun s : St => s.hbRecv) _ _ _ {} rfl
+      (by intro s e s' h hf; cases e <;> acc h <;> simp_all [isSessStart])
+      (by intro s e s' he h; rcases he with ⟨n, rfl⟩; acc h) h
+
+def isClaimAdd : Ev → Bool | .claimAdd _ => true | _ => false
+def isClaimDone : Ev → Bool | .claimDone _ => true | _ => false
+
+/-- blocked claims: when waitGroup.Wait() returns in release, every ConsumeClaim goroutine of the session has returned -/
+theorem claims_joined_after_all_claims_done {pre : List Ev} {n : Nat} {s : St} (h : run {} (pre ++ [.claimsJoined n]) = .ok s) :
+    ∀ l r, pre = l ++ .sessStart n :: r → (∀ m, .sessStart m ∉ r) → r.countP isClaimDone = r.countP isClaimAdd := by
+  obtain ⟨s1, h1, h2⟩ := run_append.mp h
+  obtain ⟨s2, h3, _⟩ := run_cons.mp h2
+  have hp : s1.claimsDone = s1.claims := by acc h3
+  have key := run_hist (step := step)
+    (fun hst (s : St) => ∀ l n r, hst = l ++ .sessStart n :: r → (∀ m, .sessStart m ∉ r) →
+        s.claimsDone = r.countP isClaimDone ∧ s.claims = r.countP isClaimAdd)
+    (by
+      intro hst s e s' ih hs l n r he hno
+      rcases snoc_eq_append_cons he with ⟨rfl, rfl, rfl⟩ | ⟨r0, rfl, rfl⟩
+      · acc hs
+      · have hno0 : ∀ m, .sessStart m ∉ r0 := by intro m hc; exact hno m (by simp [hc])
+        have hne : ∀ m, e ≠ .sessStart m := by intro m hc; exact hno m (by simp [hc])
+        have := ih l n r0 rfl hno0
+        cases e <;> acc hs <;> simp_all [isClaimAdd, isClaimDone])
+    (h0 := []) h1 (by intro l n r he; simp at he)
+  intro l r he hno
+  have := key l n r (by simpa using he) hno
+  omega
+
+/-- after Close started (closed closed) some goroutine of the group can always move until Close is done -/
+theorem no_deadlock_after_close_group {evs : List Ev} {s : St} (h : run {} evs = .ok s) (hc : s.closed = true) (hd : s.done = false) :
+    ∃ e s', internal e = true ∧ step s e = .ok s' := by
+  have hi := reach_inv h
+  cases hl : s.lock with
+  | leave => exact ⟨.leaveUnlock, _, rfl, by simp [step, hl]; rfl⟩
+  | free =>
+    by_cases h1 : s.left = true
+    · by_cases h2 : s.errsClosed = true
+      · by_cases h3 : s.clientClosed = true
+        · exact ⟨.closeDone, _, rfl, by simp [step, h3, hd]; rfl⟩
+        · exact ⟨.clientClose, _, rfl, by simp [step, h2, h3]; rfl⟩
+      · exact ⟨.errorsClose, _, rfl, by simp [step, h1, h2]; rfl⟩
+    · exact ⟨.leaveLock, _, rfl, by simp [step, hc, hl, h1]; rfl⟩
+  | consume =>
+    cases hs : s.sess with
+    | none => exact ⟨.consumeUnlock, _, rfl, by simp [step, hl, hs]; rfl⟩
+    | some n =>
+      by_cases h1 : s.released = true
+      · exact ⟨.consumeUnlock, _, rfl, by simp [step, hl, hs, h1]; rfl⟩
+      by_cases h2 : s.hbRecv = true
+      · exact ⟨.releaseDone n, _, rfl, by simp [step, hs, h2]; rfl⟩
+      by_cases h3 : s.hbDying = true
+      · by_cases h4 : s.hbDead = true
+        · exact ⟨.hbDeadRecv n, _, rfl, by simp [step, hs, h3, h4]; rfl⟩
+        · exact ⟨.hbDeadClose n, _, rfl, by simp [step, hs, h4]; rfl⟩
+      by_cases h4 : s.omClosed = true
+      · exact ⟨.hbDyingClose n, _, rfl, by simp [step, hs, h3, h4]; rfl⟩
+      by_cases h5 : s.joined = true
+      · exact ⟨.offsetsClose n, _, rfl, by simp [step, hs, h4, h5]; rfl⟩
+      by_cases h6 : s.releasing = true
+      · by_cases h7 : s.claimsDone = s.claims
+        · exact ⟨.claimsJoined n, _, rfl, by simp [step, hs, h6, h7]; rfl⟩
+        · have := hi.claims_le
+          have h8 : ¬ s.claims ≤ s.claimsDone := by omega
+          exact ⟨.claimDone n, _, rfl, by simp [step, hs, h8]; rfl⟩
+      · exact ⟨.release n, _, rfl, by simp [step, hs]; rfl⟩
+
+example : accepts step {} [.consumeLock, .sessStart 1, .claimAdd 1, .claimAdd 1, .errorsSend, .closedClose, .claimDone 1, .release 1,
+    .claimDone 1, .claimsJoined 1, .cleanup 1, .offsetsClose 1, .hbDyingClose 1, .hbDeadClose 1, .hbDeadRecv 1, .releaseDone 1,
+    .consumeUnlock, .leaveLock, .leaveUnlock, .errorsClose, .clientClose, .closeDone] = true := by decide
+example : accepts step {} [.consumeLock, .sessStart 1, .release 1, .claimsJoined 1, .offsetsClose 1, .hbDyingClose 1, .hbDeadRecv 1] = false := by decide  -- release did not wait for the heartbeat loop
+example : accepts step {} [.consumeLock, .sessStart 1, .closedClose, .leaveLock] = false := by decide    -- leave while a session holds the lock
+example : accepts step {} [.closedClose, .leaveLock, .leaveUnlock, .errorsClose, .errorsSend] = false := by decide
+example : accepts step {} [.closedClose, .closedClose] = false := by decide
+end Grp
+
+
+/-- `none_after` with a state invariant available to the guard argument -/
+theorem none_after_inv {σ ε : Type} {step : σ → ε → Except String σ} (I : σ → Prop) (f : σ → Bool) (pc pb : ε → Prop)
+    (hI : ∀ s e s', I s → step s e = .ok s' → I s')
+    (hkeep : ∀ s e s', step s e = .ok s' → f s = true → f s' = true)
+    (hclose : ∀ s e s', pc e → step s e = .ok s' → f s' = true)
+    (hreq : ∀ s e s', I s → pb e → step s e = .ok s' → f s = false)
+    {init : σ} (h0 : I init) {pre post : List ε} {c : ε} {s' : σ} (h : runWith step init (pre ++ c :: post) = .ok s') (hc : pc c) :
+    ∀ e ∈ post, ¬ pb e := by
+  obtain ⟨s1, h1, h2⟩ := run_append.mp h
+  obtain ⟨s2, h3, h4⟩ := run_cons.mp h2
+  have hi2 : I s2 := hI s1 c s2 (run_inv I hI h1 h0) h3
+  have hf2 := hclose s1 c s2 hc h3
+  clear h h2 h3 h1
+  induction post generalizing s2 with
+  | nil => simp
+  | cons x xs ih =>
+    obtain ⟨s3, h5, h6⟩ := run_cons.mp h4
+    intro e he
+    rcases List.mem_cons.mp he with rfl | he
+    · intro hb; have := hreq s2 e s3 hi2 hb h5; simp [hf2] at this
+    · exact ih s3 h6 (hI s2 x s3 hi2 h5) (hkeep s2 x s3 h5 hf2) e he
+
+namespace PC
+open Model.Lifecycle.PC
+
+local macro "acc" h:ident : tactic =>
+  `(tactic| (simp only [step] at $h:ident <;> (repeat' split at $h:ident) <;>
+      first | (cases $h:ident; done) | (injection $h:ident with $h:ident; subst $h:ident; simp_all)))
+
+/-- the ownership discipline of the hand-shake (who holds the child decides who may touch its channels) -/
+structure PInv (s : St) : Prop where
+  nobody_   : s.owner = .nobody → s.ref = none ∧ s.trigClosed = false
+  bc_       : ∀ b, s.owner = .bc b → s.trigClosed = false ∧ s.ref.isSome = true
+  feeder_   : s.owner = .feeder → s.trigClosed = false ∧ s.slow = true ∧ s.ref.isSome = true
+  busy_     : s.busy = true → s.owner = .disp ∧ s.token = false
+  token_    : s.token = true → s.owner = .disp ∧ s.trigClosed = false
+  disp_     : s.owner = .disp → s.trigClosed = false → s.busy = true ∨ s.token = true
+  slow_     : s.slow = true → s.owner = .feeder
+  trig_     : s.trigClosed = true → s.owner = .disp
+  exiting_  : s.exiting = true → s.trigClosed = true ∧ s.ref = none
+  removed_  : s.removed = true → s.exiting = true ∧ s.ref = none
+  fclosed_  : s.feederClosed = true → s.removed = true
+  fexited_  : s.feederExited = true → s.feederClosed = true ∧ s.inflight = false ∧ s.feeding = false
+  mclosed_  : s.msgsClosed = true → s.feederExited = true
+  eclosed_  : s.errsClosed = true → s.msgsClosed = true
+  dying_    : s.dying = true → s.started = true
+  started_  : s.started = false → s.owner = .nobody
+
+theorem init_inv : PInv {} := by constructor <;> simp
+
+theorem step_inv (s : St) (e : Ev) (s' : St) (hi : PInv s) (h : step s e = .ok s') : PInv s' := by
+  obtain ⟨i1, i2, i3, i4, i5, i6, i7, i8, i9, i10, i11, i12, i13, i14, i15, i16⟩ := hi
+  cases e with
+  | inputSend w b => cases w <;> acc h <;> constructor <;> simp_all
+  | _ => acc h <;> constructor <;> simp_all
+
+theorem reach_inv {evs : List Ev} {s : St} (h : run {} evs = .ok s) : PInv s :=
+  run_inv PInv step_inv h init_inv
+
+theorem dying_set (s : St) (e : Ev) (s' : St) (h : step s e = .ok s') : (s'.dying = true ↔ s.dying = true ∨ e = .dyingClose) := by
+  cases e with
+  | inputSend w b => cases w <;> acc h
+  | _ => acc h
+def isTrigClose : Ev → Prop | .trigCloseDisp => True | .trigCloseBc _ _ => True | _ => False
+def isTrigSend : Ev → Prop | .trigSendDisp => True | .trigSendBc _ => True | _ => False
+instance : DecidablePred isTrigClose := fun e => by cases e <;> simp [isTrigClose] <;> infer_instance
+theorem trig_set (s : St) (e : Ev) (s' : St) (h : step s e = .ok s') : (s'.trigClosed = true ↔ s.trigClosed = true ∨ isTrigClose e) := by
+  cases e with
+  | inputSend w b => cases w <;> acc h <;> simp [isTrigClose]
+  | _ => acc h <;> simp_all [isTrigClose]
+theorem removed_set (s : St) (e : Ev) (s' : St) (h : step s e = .ok s') : (s'.removed = true ↔ s.removed = true ∨ e = .remove) := by
+  cases e with
+  | inputSend w b => cases w <;> acc h
+  | _ => acc h
+theorem fclosed_set (s : St) (e : Ev) (s' : St) (h : step s e = .ok s') : (s'.feederClosed = true ↔ s.feederClosed = true ∨ e = .feederClose) := by
+  cases e with
+  | inputSend w b => cases w <;> acc h
+  | _ => acc h
+theorem fexited_set (s : St) (e : Ev) (s' : St) (h : step s e = .ok s') : (s'.feederExited = true ↔ s.feederExited = true ∨ e = .feederExit) := by
+  cases e with
+  | inputSend w b => cases w <;> acc h
+  | _ => acc h
+theorem mclosed_set (s : St) (e : Ev) (s' : St) (h : step s e = .ok s') : (s'.msgsClosed = true ↔ s.msgsClosed = true ∨ e = .msgsClose) := by
+  cases e with
+  | inputSend w b => cases w <;> acc h
+  | _ => acc h
+theorem eclosed_set (s : St) (e : Ev) (s' : St) (h : step s e = .ok s') : (s'.errsClosed = true ↔ s.errsClosed = true ∨ e = .errsClose) := by
+  cases e with
+  | inputSend w b => cases w <;> acc h
+  | _ => acc h
+
+/-- every channel of a partition consumer is closed at most once: dying (closeOnce), trigger (by whoever holds the
+    child: its dispatcher or the broker worker), feeder, messages, errors -/
+theorem never_double_close_pc {evs : List Ev} {s : St} (h : run {} evs = .ok s) :
+    evs.count .dyingClose ≤ 1 ∧ evs.countP (fun e => decide (isTrigClose e)) ≤ 1 ∧ evs.count .feederClose ≤ 1 ∧
+    evs.count .msgsClose ≤ 1 ∧ evs.count .errsClose ≤ 1 := by
+  refine ⟨?_, ?_, ?_, ?_, ?_⟩
+  · have := count_le_one (p := fun e => e = Ev.dyingClose) (fun s : St => s.dying) dying_set
+      (by intro s e s' he h; subst he; acc h) h
+    rw [count_eq_countP]; simpa using this
+  · have := count_le_one (p := isTrigClose) (fun s : St => s.trigClosed) trig_set
+      (by intro s e s' he h; cases e <;> simp [isTrigClose] at he <;> acc h) h
+    simpa using this
+  · have := count_le_one (p := fun e => e = Ev.feederClose) (fun s : St => s.feederClosed) fclosed_set
+      (by intro s e s' he h; subst he; acc h) h
+    rw [count_eq_countP]; simpa using this
+  · have := count_le_one (p := fun e => e = Ev.msgsClose) (fun s : St => s.msgsClosed) mclosed_set
+      (by intro s e s' he h; subst he; acc h) h
+    rw [count_eq_countP]; simpa using this
+  · have := count_le_one (p := fun e => e = Ev.errsClose) (fun s : St => s.errsClosed) eclosed_set
+      (by intro s e s' he h; subst he; acc h) h
+    rw [count_eq_countP]; simpa using this
+
+/-- no send on a closed channel: nothing on trigger after it was closed (by either side), no response into feeder
+    after the dispatcher closed it, no message after Messages() was closed, no error after Errors() was closed -/
+theorem no_send_after_close_pc {pre post : List Ev} {c : Ev} {s : St} (h : run {} (pre ++ c :: post) = .ok s) :
+    (isTrigClose c → ∀ e ∈ post, ¬ isTrigSend e) ∧
+    (c = .feederClose → ∀ e ∈ post, ∀ b, e ≠ .feederSend b) ∧
+    (c = .msgsClose → ∀ e ∈ post, e ≠ .msgSend) ∧
+    (c = .errsClose → ∀ e ∈ post, e ≠ .errSend) := by
+  refine ⟨?_, ?_, ?_, ?_⟩
+  · intro hc
+    exact none_after (fun s : St => s.trigClosed) isTrigClose isTrigSend
+      (by intro s e s' h hf; exact (trig_set s e s' h).mpr (Or.inl hf))
+      (by intro s e s' he h; exact (trig_set s e s' h).mpr (Or.inr he))
+      (by intro s e s' he h; cases e <;> simp [isTrigSend] at he <;> acc h) h hc
+  · intro hc e he b hb
+    exact none_after (fun s : St => s.feederClosed) (· = .feederClose) (fun e => ∃ b, e = .feederSend b)
+      (by intro s e s' h hf; exact (fclosed_set s e s' h).mpr (Or.inl hf))
+      (by intro s e s' he h; exact (fclosed_set s e s' h).mpr (Or.inr he))
+      (by intro s e s' he h; rcases he with ⟨b, rfl⟩; acc h) h hc e he ⟨b, hb⟩
+  · intro hc
+    exact none_after (fun s : St => s.msgsClosed) (· = .msgsClose) (· = .msgSend)
+      (by intro s e s' h hf; exact (mclosed_set s e s' h).mpr (Or.inl hf))
+      (by intro s e s' he h; exact (mclosed_set s e s' h).mpr (Or.inr he))
+      (by intro s e s' he h; subst he; acc h) h hc
+  · intro hc
+    exact none_after (fun s : St => s.errsClosed) (· = .errsClose) (· = .errSend)
+      (by intro s e s' h hf; exact (eclosed_set s e s' h).mpr (Or.inl hf))
+      (by intro s e s' he h; exact (eclosed_set s e s' h).mpr (Or.inr he))
+      (by intro s e s' he h; subst he; acc h) h hc
+
+/-- the ownership discipline makes the closed-channel guards redundant: whoever holds the child finds the channels
+    it may touch open.  (A broker worker that holds it: trigger, feeder, errors open and trigger empty; the
+    dispatcher handling a token before it closed trigger: trigger empty, errors open; the feeder with a response in
+    hand or on the slow path: messages open.) -/
+theorem holder_finds_channels_open {evs : List Ev} {s : St} (h : run {} evs = .ok s) :
+    (∀ b, s.owner = .bc b → s.trigClosed = false ∧ s.token = false ∧ s.feederClosed = false ∧ s.errsClosed = false) ∧
+    (s.busy = true → s.trigClosed = false → s.token = false ∧ s.errsClosed = false) ∧
+    (s.slow = true → s.msgsClosed = false ∧ s.trigClosed = false) := by
+  have hi := reach_inv h
+  refine ⟨?_, ?_, ?_⟩
+  · intro b hb
+    have h1 := (hi.bc_ b hb).1
+    have h2 : s.token = false := by
+      cases ht : s.token with
+      | false => rfl
+      | true => have := (hi.token_ ht).1; simp [hb] at this
+    have h3 : s.feederClosed = false := by
+      cases hf : s.feederClosed with
+      | false => rfl
+      | true =>
+        have := (hi.exiting_ (hi.removed_ (hi.fclosed_ hf)).1).1
+        simp [h1] at this
+    have h4 : s.errsClosed = false := by
+      cases he : s.errsClosed with
+      | false => rfl
+      | true =>
+        have := (hi.fexited_ (hi.mclosed_ (hi.eclosed_ he))).1
+        simp [h3] at this
+    exact ⟨h1, h2, h3, h4⟩
+  · intro hb ht
+    refine ⟨(hi.busy_ hb).2, ?_⟩
+    cases he : s.errsClosed with
+    | false => rfl
+    | true =>
+      have := (hi.exiting_ (hi.removed_ (hi.fclosed_ (hi.fexited_ (hi.mclosed_ (hi.eclosed_ he))).1)).1).1
+      simp [ht] at this
+  · intro hs
+    have ho := hi.slow_ hs
+    have ht := (hi.feeder_ ho).1
+    refine ⟨?_, ht⟩
+    cases hm : s.msgsClosed with
+    | false => rfl
+    | true =>
+      have := (hi.exiting_ (hi.removed_ (hi.fclosed_ (hi.fexited_ (hi.mclosed_ hm)).1)).1).1
+      simp [ht] at this
+
+/-- Messages()/Errors() are closed after the feeder's last delivery: the feeder leaves its loop only when the
+    dispatcher closed the feeder channel and no response is in flight or in hand, and after that nothing is taken
+    from the feeder channel, acknowledged or delivered any more -/
+theorem outputs_closed_after_last_event_pc {evs : List Ev} {s : St} (h : run {} evs = .ok s) :
+    Precedes (· = .feederExit) (fun _ => False) (· = .msgsClose) evs ∧
+    Precedes (· = .msgsClose) (fun _ => False) (· = .errsClose) evs ∧
+    (∀ pre post, evs = pre ++ .feederExit :: post → ∀ e ∈ post, e ≠ .msgSend ∧ e ≠ .feederRecv ∧ (∀ w, e ≠ .ack w) ∧ ∀ b, e ≠ .feederSend b) := by
+  refine ⟨?_, ?_, ?_⟩
+  · exact needs (fun s : St => s.feederExited) _ _ _ {} rfl
+      (by intro s e s' h hf; have := (fexited_set s e s' h).mp hf; simpa using this)
+      (by intro s e s' he h; subst he; acc h) h
+  · exact needs (fun s : St => s.msgsClosed) _ _ _ {} rfl
+      (by intro s e s' h hf; have := (mclosed_set s e s' h).mp hf; simpa using this)
+      (by intro s e s' he h; subst he; acc h) h
+  · intro pre post he e hmem
+    subst he
+    have key := none_after_inv PInv (fun s : St => s.feederExited) (· = .feederExit)
+      (fun e => e = .msgSend ∨ e = .feederRecv ∨ (∃ w, e = .ack w) ∨ ∃ b, e = .feederSend b)
+      step_inv
+      (by intro s e s' h hf; exact (fexited_set s e s' h).mpr (Or.inl hf))
+      (by intro s e s' he h; exact (fexited_set s e s' h).mpr (Or.inr he))
+      (by
+        intro s e s' hi he h
+        cases hx : s.feederExited with
+        | false => rfl
+        | true =>
+          exfalso
+          obtain ⟨h1, h2, h3⟩ := hi.fexited_ hx
+          have h4 : s.slow = false := by
+            cases hs : s.slow with
+            | false => rfl
+            | true =>
+              have := (hi.feeder_ (hi.slow_ hs)).1
+              have := (hi.exiting_ (hi.removed_ (hi.fclosed_ h1)).1).1
+              simp_all
+          rcases he with rfl | rfl | ⟨w, rfl⟩ | ⟨b, rfl⟩ <;> acc h)
+      init_inv h rfl e hmem
+    refine ⟨fun hc => key (Or.inl hc), fun hc => key (Or.inr (Or.inl hc)), fun w hc => key (Or.inr (Or.inr (Or.inl ⟨w, hc⟩))),
+      fun b hc => key (Or.inr (Or.inr (Or.inr ⟨b, hc⟩)))⟩
+
+/-- the documented order of the tear-down: dying closed (AsyncClose) → trigger closed (by the dispatcher or the broker
+    worker, whoever holds the child; only an out-of-range shutdown closes it without dying) → child removed from the
+    consumer → feeder channel closed → feeder leaves its loop → Messages() closed → Errors() closed -/
+theorem close_order_pc {evs : List Ev} {s : St} (h : run {} evs = .ok s) :
+    Precedes (· = .dyingClose) (fun _ => False) (fun e => e = .trigCloseDisp ∨ ∃ b, e = .trigCloseBc b false) evs ∧
+    Precedes isTrigClose (fun _ => False) (· = .remove) evs ∧
+    Precedes (· = .remove) (fun _ => False) (· = .feederClose) evs ∧
+    Precedes (· = .feederClose) (fun _ => False) (· = .feederExit) evs ∧
+    Precedes (· = .feederExit) (fun _ => False) (· = .msgsClose) evs ∧
+    Precedes (· = .msgsClose) (fun _ => False) (· = .errsClose) evs := by
+  refine ⟨?_, ?_, ?_, ?_, (outputs_closed_after_last_event_pc h).1, (outputs_closed_after_last_event_pc h).2.1⟩
+  · exact needs (fun s : St => s.dying) _ _ _ {} rfl
+      (by intro s e s' h hf; have := (dying_set s e s' h).mp hf; simpa using this)
+      (by intro s e s' he h; rcases he with rfl | ⟨b, rfl⟩ <;> acc h) h
+  · exact needs (fun s : St => s.trigClosed) _ _ _ {} rfl
+      (by intro s e s' h hf; have := (trig_set s e s' h).mp hf; simpa using this)
+      (by intro s e s' he h; subst he; acc h) h
+  · exact needs (fun s : St => s.removed) _ _ _ {} rfl
+      (by intro s e s' h hf; have := (removed_set s e s' h).mp hf; simpa using this)
+      (by intro s e s' he h; subst he; acc h) h
+  · exact needs (fun s : St => s.feederClosed) _ _ _ {} rfl
+      (by intro s e s' h hf; have := (fclosed_set s e s' h).mp hf; simpa using this)
+      (by intro s e s' he h; subst he; acc h) h
+
+/-- no deadlock after AsyncClose: in every reachable state in which dying is closed and Errors() is still open, one of
+    the partition consumer's goroutines (dispatcher, feeder) or the broker worker holding it has an enabled step -/
+theorem no_deadlock_after_close_pc {evs : List Ev} {s : St} (h : run {} evs = .ok s) (hd : s.dying = true) (he : s.errsClosed = false) :
+    ∃ e s', internal e = true ∧ step s e = .ok s' := by
+  have hi := reach_inv h
+  have hst := hi.dying_ hd
+  cases ho : s.owner with
+  | nobody => exact ⟨.inputSend .new 0, _, rfl, by simp [step, hst, ho]; rfl⟩
+  | bc b =>
+    have ht := (hi.bc_ b ho).1
+    exact ⟨.trigCloseBc b false, _, rfl, by simp [step, ho, hd, ht]; rfl⟩
+  | feeder =>
+    obtain ⟨_, _, hr⟩ := hi.feeder_ ho
+    obtain ⟨b, hb⟩ := Option.isSome_iff_exists.mp hr
+    exact ⟨.inputSend .feeder b, _, rfl, by simp [step, ho, hb]; rfl⟩
+  | disp =>
+    cases ht : s.trigClosed with
+    | false =>
+      cases hb : s.busy with
+      | true => exact ⟨.trigCloseDisp, _, rfl, by simp [step, hb, ho, hd, ht]; rfl⟩
+      | false =>
+        have htok : s.token = true := by
+          rcases hi.disp_ ho ht with h1 | h1
+          · simp [hb] at h1
+          · exact h1
+        have hex : s.exiting = false := by
+          cases hx : s.exiting with
+          | false => rfl
+          | true => have := (hi.exiting_ hx).1; simp [ht] at this
+        exact ⟨.dispToken, _, rfl, by simp [step, htok, hb, hex, ho]; rfl⟩
+    | true =>
+      cases hrm : s.removed with
+      | false =>
+        cases hr : s.ref with
+        | none => exact ⟨.remove, _, rfl, by simp [step, ht, ho, hrm, hr]; rfl⟩
+        | some b =>
+          cases hx : s.exiting with
+          | false => exact ⟨.unrefExit b, _, rfl, by simp [step, ht, ho, hx, hr]; rfl⟩
+          | true =>
+            exfalso
+            have := (hi.exiting_ hx).2
+            simp [hr] at this
+      | true =>
+        cases hfc : s.feederClosed with
+        | false => exact ⟨.feederClose, _, rfl, by simp [step, hrm, hfc]; rfl⟩
+        | true =>
+          cases hfe : s.feederExited with
+          | false =>
+            cases hin : s.inflight with
+            | true => exact ⟨.feederRecv, _, rfl, by simp [step, hin]; rfl⟩
+            | false =>
+              cases hfd : s.feeding with
+              | true => exact ⟨.ack 0, _, rfl, by simp [step, hfd]; rfl⟩
+              | false =>
+                have hsl : s.slow = false := by
+                  cases hs : s.slow with
+                  | false => rfl
+                  | true => have := hi.slow_ hs; simp [ho] at this
+                exact ⟨.feederExit, _, rfl, by simp [step, hfc, hin, hfd, hsl, hfe]; rfl⟩
+          | true =>
+            cases hm : s.msgsClosed with
+            | false => exact ⟨.msgsClose, _, rfl, by simp [step, hfe, hm]; rfl⟩
+            | true => exact ⟨.errsClose, _, rfl, by simp [step, hm, he]; rfl⟩
+
+example : accepts step {} [.start, .inputSend .new 7, .feederSend 7, .feederRecv, .msgSend, .msgSend, .ack 0, .dyingClose,
+    .feederSend 7, .feederRecv, .msgSend, .ack 1, .trigCloseBc 7 false, .unrefExit 7, .remove, .feederClose, .feederExit,
+    .msgsClose, .errsClose] = true := by decide
+-- slow reader, broker worker aborts, redispatch fails once, then closed at the dispatcher
+example : accepts step {} [.start, .inputSend .new 7, .feederSend 7, .feederRecv, .ack 2, .msgSend, .inputSend .feeder 7, .errSend,
+    .trigSendBc 7, .dispToken, .unrefRedispatch 7, .errSend, .trigSendDisp, .dyingClose, .dispToken, .trigCloseDisp, .remove,
+    .feederClose, .feederExit, .msgsClose, .errsClose] = true := by decide
+example : accepts step {} [.start, .inputSend .new 7, .dyingClose, .dyingClose] = false := by decide   -- AsyncClose without closeOnce
+example : accepts step {} [.start, .inputSend .new 7, .dyingClose, .trigCloseBc 7 false, .unrefExit 7, .remove, .feederClose,
+    .msgsClose] = false := by decide   -- messages closed before the feeder left its loop
+example : accepts step {} [.start, .inputSend .new 7, .dyingClose, .trigCloseBc 7 false, .trigSendBc 7] = false := by decide
+example : accepts step {} [.start, .inputSend .new 7, .feederSend 7, .dyingClose, .trigCloseBc 7 false, .unrefExit 7, .remove,
+    .feederClose, .feederExit] = false := by decide   -- feeder left with a response still in the channel
+
+end PC
+
 end Props.C12life
